@@ -433,6 +433,9 @@ ANNOTATIONS = [
     {"sbo": "SBO:0000176"},
     {"sbo": "SBO:0000247", "metanetx.chemical": "MNXM41"},
     {"uniprot": ["P0A796"], "ncbigene": "948412"},
+    # several identifiers of one provider, a later one being a prefix / substring of an earlier one
+    {"kegg.compound": ["C00236", "C0023"], "pubmed": ["10108", "1010", "101"]},
+    {"ec-code": ["1.1.1.10", "1.1.1.1"], "chebi": ["CHEBI:176340", "CHEBI:17634"]},
 ]
 NOTES = [{"note": "plain text"}, {"source": "generated", "confidence": "3"}, {"GENE_ASSOCIATION": "see rule"}]
 
